@@ -31,6 +31,21 @@ class Boom(Exception):
     pass
 
 
+class NamedObserver(BaseComponent):
+    """Observes only the listed event names, so that other events keep having NO handler at all
+    (a global catch-all observer would make every event 'handled')."""
+
+    world = None
+
+    def __init__(self, names):
+        super().__init__()
+        for i, nm in enumerate(names):
+            def fn(self, event, *args, **kwargs):
+                Observer._gh_observe(self, event, *args, **kwargs)
+            fn.__name__ = '_gh_obs_%d' % i
+            self.addHandler(handler(nm, channel='*', priority=100)(fn))
+
+
 class Observer(BaseComponent):
     world = None
 
@@ -85,6 +100,8 @@ class OrderedTasks(set):
 class World:
     task_order_reversed = False
 
+    observe_names = None   # None: global catch-all observer; list: observe only these event names
+
     def __init__(self, handlers, root_cls=BaseComponent):
         """handlers: list of (hid, event type name, priority, script, opts) ; opts: {'channel':..}"""
         self.log = []
@@ -96,7 +113,7 @@ class World:
         self.root = root_cls()
         if isinstance(getattr(self.root, '_tasks', None), set):
             self.root._tasks = OrderedTasks(self.task_order_reversed)
-        self.obs = Observer()
+        self.obs = Observer() if self.observe_names is None else NamedObserver(self.observe_names)
         self.obs.world = self
         self.obs.register(self.root)
         self.comp = BaseComponent()
